@@ -11,6 +11,9 @@ import (
 	"sort"
 	"strconv"
 	"strings"
+
+	"tkestack.io/galaxy/verifsim/core"
+	"tkestack.io/galaxy/verifsim/dropin/simnet"
 )
 
 const (
@@ -80,12 +83,28 @@ func diffLines(before, after []string) (removed, added []string) {
 	return
 }
 
-func (c *Container) mine(l string) bool {
+// mine: the line belongs to a chain that appeared while a sandbox of this pod was being set up, or is the
+// KUBE-HOSTPORTS rule that jumps to such a chain.
+func (w *World) mine(c *Container, l string) bool {
+	chains := w.podChains[c.Pod.Idx]
 	ch, tg := lineChain(l)
-	if c.Chains[ch] {
+	if chains[ch] {
 		return true
 	}
-	return ch == chHostports && c.Chains[tg]
+	return ch == chHostports && chains[tg]
+}
+
+// podQuiet: no other sandbox of the pod is set up or has a request in flight.
+func (w *World) podQuiet(c *Container) bool {
+	for _, x := range w.conts {
+		if x == c || x.Pod != c.Pod {
+			continue
+		}
+		if x.Busy != nil || x.Phase == "up" || x.Phase == "addfailed" || x.Phase == "delfailed" {
+			return false
+		}
+	}
+	return true
 }
 
 func tokAfter(toks []string, opt string) string {
@@ -160,6 +179,9 @@ func (w *World) checkHeld(when string) {
 		if c.Phase != "up" && c.Phase != "delfailed" {
 			continue
 		}
+		if c.Busy != nil && c.Busy.Cmd == "DEL" {
+			continue // being torn down
+		}
 		for _, m := range c.Mappings {
 			k := fmt.Sprintf("%s/%d", m.Proto, m.HostPort)
 			if other, dup := seen[k]; dup && other.Pod != c.Pod {
@@ -189,15 +211,20 @@ func (w *World) oracleC14RequestEnd(r *Request) {
 	who := fmt.Sprintf("pod %s container %s request %s %s", c.Pod.key(), c.ID[:8], r.ID, r.Cmd)
 	after := w.Kern.Lines("nat")
 	removed, added := diffLines(r.before, after)
-	if r.Cmd == "ADD" {
+	if w.podChains[c.Pod.Idx] == nil {
+		w.podChains[c.Pod.Idx] = map[string]bool{}
+	}
+	if r.Cmd == "ADD" || r.overlap {
+		// with an overlapping request of the same pod the two deltas cannot be told apart: the chains that appeared
+		// are the pod's
 		for _, l := range added {
 			if ch, _ := lineChain(l); strings.HasPrefix(l, "C ") && strings.HasPrefix(ch, hpPrefix) {
-				c.Chains[ch] = true
+				w.podChains[c.Pod.Idx][ch] = true
 			}
 		}
 	}
 	for _, l := range removed {
-		if excludedLine(l) || c.mine(l) {
+		if excludedLine(l) || w.mine(c, l) {
 			continue
 		}
 		key := "setup-touched-other"
@@ -208,7 +235,7 @@ func (w *World) oracleC14RequestEnd(r *Request) {
 		return
 	}
 	for _, l := range added {
-		if excludedLine(l) || c.mine(l) {
+		if excludedLine(l) || w.mine(c, l) {
 			continue
 		}
 		w.fail("C14.inverse", "added-outside-own-chains", "%s added a NAT line outside this pod's chains: %q", who, l)
@@ -223,7 +250,7 @@ func (w *World) oracleC14RequestEnd(r *Request) {
 			}
 		}
 	}
-	if r.Cmd == "ADD" && ok {
+	if r.Cmd == "ADD" && ok && !r.overlap {
 		ins, _, _ := w.installed()
 		have := multiset(mapStrings(ins))
 		for _, m := range c.Mappings {
@@ -231,33 +258,42 @@ func (w *World) oracleC14RequestEnd(r *Request) {
 				w.fail("C14.inverse", "mapping-not-installed", "%s succeeded but the NAT table does not implement %s (installed: %v)", who, m, mapStrings(ins))
 				return
 			}
-			if !w.heldByGalaxy(m) {
-				w.fail("C14.ports", "port-not-held", "%s succeeded but host port %s/%d is not bound by the daemon", who, m.Proto, m.HostPort)
-				return
-			}
 		}
 		if len(c.Mappings) > 0 {
 			w.S.Stat("probe.portmapping-setup")
 		}
 	}
-	if r.Cmd == "DEL" && ok {
+	if r.Cmd == "DEL" && ok && w.podQuiet(c) {
+		// the pod is torn down: nothing of it may be left, neither rules nor sockets
 		left := multiset(nil)
 		for _, l := range after {
-			if c.mine(l) && !excludedLine(l) {
+			if w.mine(c, l) && !excludedLine(l) {
 				left[l]++
 			}
 		}
 		for _, l := range sortedKeys(left) {
-			if left[l] > c.Baseline[l] {
-				w.fail("C14.inverse", "leftover-after-cleanup", "%s succeeded but the NAT table still holds this pod's %q", who, l)
+			if left[l] > w.podBase[c.Pod.Idx][l] {
+				w.fail("C14.inverse", "leftover-after-cleanup", "%s succeeded and no other sandbox of the pod exists, but the NAT table still holds this pod's %q", who, l)
 				return
 			}
 		}
-		if len(c.Chains) > 0 {
+		for _, s := range w.Net.Sockets() {
+			or := w.reqs[s.Opener]
+			if s.Proc != w.proc || or == nil || or.C.Pod != c.Pod {
+				continue
+			}
+			if or.C == c {
+				w.fail("C14.ports", "socket-left-after-own-del", "%s succeeded and no other sandbox of the pod exists, but the daemon still holds %s/%d which it opened for this very sandbox (request %s): the port is bound and nothing tracks it any more", who, s.Proto, s.Port, or.ID)
+			} else {
+				w.fail("C14.ports", "socket-of-earlier-sandbox-left", "%s succeeded and no other sandbox of the pod exists, but the daemon still holds %s/%d which it opened for the earlier sandbox %s of the pod (request %s)", who, s.Proto, s.Port, short(or.C.ID), or.ID)
+			}
+			return
+		}
+		if len(w.podChains[c.Pod.Idx]) > 0 {
 			w.S.Stat("probe.portmapping-cleanup")
 		}
 	}
-	if !ok && !r.fault && !c.Tainted && !r.inUse && !c.Pod.ExpectFail {
+	if !ok && !r.fault && !c.Tainted && !r.inUse && !r.overlap && !c.Pod.ExpectFail {
 		if r.Cmd == "DEL" {
 			w.fail("C14.inverse", "cleanup-fails-without-fault", "%s failed although no fault was injected: %s", who, strings.TrimSpace(string(r.Resp)))
 		} else {
@@ -266,6 +302,41 @@ func (w *World) oracleC14RequestEnd(r *Request) {
 		return
 	}
 	w.checkHeld("after " + who)
+}
+
+// onSockClose is evaluated at the instant the daemon closes a socket: a host port handed out to a sandbox that is
+// up must not be released by a request that serves another sandbox.
+func (w *World) onSockClose(s *simnet.Socket, t *core.Task) {
+	if !w.armed("C14") {
+		return
+	}
+	or, cr := w.reqs[s.Opener], reqOf(t)
+	if cr == nil {
+		return
+	}
+	var x *Container
+	if or != nil {
+		x = or.C
+	} else {
+		// re-opened by the start-up code after a restart: it belongs to the sandbox that was given this port
+		for _, c := range w.conts {
+			for _, m := range c.Mappings {
+				if c.Phase == "up" && m.Proto == s.Proto && m.HostPort == s.Port {
+					x = c
+				}
+			}
+		}
+	}
+	if x == nil || x == cr.C {
+		return
+	}
+	if x.Busy != nil && x.Busy.Cmd == "DEL" {
+		return // its teardown has begun: the obligation to hold its ports is over
+	}
+	if x.Phase == "up" || (or != nil && x.Busy == or && or.Cmd == "ADD") {
+		w.fail("C14.ports", "port-released-by-request-for-other-sandbox", "request %s %s for container %s (pod %s) closed host port %s/%d, which the daemon had opened for container %s (pod %s, %s) and which has not been torn down",
+			cr.ID, cr.Cmd, short(cr.C.ID), cr.C.Pod.key(), s.Proto, s.Port, short(x.ID), x.Pod.key(), x.Phase)
+	}
 }
 
 // expectedFromAPI: the ports a full synchronisation is given are those of the pods of this node that have an IP.
@@ -354,6 +425,12 @@ func (w *World) oracleC14Final() {
 	for _, l := range w.Kern.Lines("nat") {
 		if !excludedLine(l) {
 			fa = append(fa, l)
+		}
+	}
+	for _, s := range w.Net.Sockets() {
+		if s.Proc == w.proc {
+			w.fail("C14.ports", "socket-left-after-final-teardown", "every pod has been torn down but the daemon still holds %s/%d (opened by %s)", s.Proto, s.Port, s.Opener)
+			return
 		}
 	}
 	removed, added := diffLines(fb, fa)
